@@ -151,6 +151,14 @@ type ReadCall struct {
 	T   time.Time
 }
 
+// Consumed returns how many bytes of direction dir the reading end has taken out of the network.
+func (p *Pipe) Consumed(dir int) int64 {
+	h := p.h[dir]
+	h.mu.Lock()
+	defer h.mu.Unlock()
+	return h.readOff
+}
+
 // ReadCalls returns the logged Read calls of direction dir (needs Net.KeepReads).
 func (p *Pipe) ReadCalls(dir int) []ReadCall {
 	h := p.h[dir]
